@@ -90,11 +90,19 @@ pub struct ConcHooks;
 impl Hooks for ConcHooks {
   fn lock(&self, ev: LockEvent, _addr: usize) -> bool {
     let t = TID.with(|t| t.get());
+    if std::env::var("VERIF_CONC_TRACE").is_ok() {
+      eprintln!("  [t{t}] {ev:?} {_addr:x}");
+    }
     if t == 0 {
       return false; // set-up thread: ordinary blocking lock
     }
     match ev {
-      LockEvent::Before => wait_turn(false, None),
+      LockEvent::Before => {
+        if std::env::var("VERIF_CONC_TRACE").is_ok() {
+          eprintln!("  [t{t}] before lock {_addr:x}");
+        }
+        wait_turn(false, None)
+      }
       LockEvent::Blocked => wait_turn(true, None),
       LockEvent::Acquired => {}
     }
